@@ -231,6 +231,7 @@ func (f *flusher) flush(b *blob) {
 // simulating similar behavior to the file being flushed and subsequently evicted by the disk store's LRU policy.
 // This will break any open [File] handles to the blob after eviction from memory, but it's the best we can do.
 func (f *flusher) handleFlushFailure(key string) {
+	verifPoint("fail1", key)
 	if err := f.disk.Delete(key); err != nil && !errors.Is(err, os.ErrNotExist) {
 		f.log.With(
 			"key", key,
@@ -238,12 +239,14 @@ func (f *flusher) handleFlushFailure(key string) {
 			Error("Could not clean disk entry after flushing failed, blob is now leaked in disk store")
 	}
 
+	verifPoint("fail2", key)
 	f.mu.Lock()
 	defer f.mu.Unlock()
 	delete(f.blobs, key)
 }
 
 func (f *flusher) flushMetadatasAndUnmarkDirty(key string, b *blob) error {
+	verifPoint("mdsnap", key)
 	b.mu.Lock()
 	for {
 		dirtyMDSnapshot := b.dirtyMD
@@ -262,6 +265,7 @@ func (f *flusher) flushMetadatasAndUnmarkDirty(key string, b *blob) error {
 			}
 		}
 
+		verifPoint("mdcheck", key)
 		f.mu.Lock()
 		b.mu.Lock()
 		if len(b.dirtyMD) == 0 {
@@ -276,6 +280,7 @@ func (f *flusher) flushMetadatasAndUnmarkDirty(key string, b *blob) error {
 }
 
 func (f *flusher) flushMetadata(key, mdSuffix string) error {
+	verifPoint("md:"+mdSuffix, key)
 	md := metadata.CreateFromSuffix(mdSuffix)
 	if md == nil {
 		// DeleteMetadata accepts any suffix: one that no metadata type is registered for names nothing
@@ -290,6 +295,7 @@ func (f *flusher) flushMetadata(key, mdSuffix string) error {
 	if err != nil {
 		return fmt.Errorf("mem store get md: %w", err)
 	}
+	verifPoint("mdwrite:"+mdSuffix, key)
 	if !ok {
 		err = f.disk.DeleteMetadata(key, md.GetSuffix())
 		if errors.Is(err, os.ErrNotExist) {
